@@ -4,6 +4,7 @@ from fractions import Fraction
 from harness.core import hexp, run_driver
 
 SUPPLY = 21 * 10**14
+EXT_ADDR = '1J9GDZMKEr3ZTj8q6pwtMy4Arvt92FDBTb'
 
 
 def run(ctx):
@@ -162,6 +163,34 @@ def run(ctx):
                     if bad <= 5:
                         ctx.violation('an amount string with a denominator symbol is not parsed to the exact amount',
                                       {'op': 'parse_symbol', 'amount': amount, 'network': net, 'observed': got, 'expected_satoshi': int(want)})
+    # ---- codes that are no currency of the library are refused; amounts handed to a transaction as text or Value are coins ----------
+    from bitcoinlib.transactions import Transaction, Output
+    for code_ in ('USD', 'EUR', 'XYZ', 'mUSD', 'BTCX', 'kXYZ'):
+        ctx.evals += 1
+        ctx.count('unknown-currency-code')
+        try:
+            got = value_to_satoshi('1 ' + code_)
+        except Exception:
+            got = None
+        if got is not None:
+            ctx.violation('an amount with an unknown currency code is converted as if it were the default currency', {'op': 'parse_symbol', 'amount': '1 ' + code_, 'observed': got})
+    for n in rng.sample(ns, 40 if T else 12):
+        txt = '%d.%08d BTC' % (n // 10 ** 8, n % 10 ** 8)
+        for form_, mk in (('add_output(text)', lambda: Transaction().add_output(txt, EXT_ADDR) or 0), ('add_output(Value)', lambda: Transaction().add_output(Value(txt), EXT_ADDR) or 0),
+                          ('Output(text)', None), ('Output(Value)', None)):
+            ctx.evals += 1
+            ctx.count('amount-into-output:' + form_)
+            try:
+                if form_.startswith('add_output'):
+                    t_ = Transaction()
+                    t_.add_output(txt if 'text' in form_ else Value(txt), EXT_ADDR)
+                    got = t_.outputs[0].value
+                else:
+                    got = Output(txt if 'text' in form_ else Value(txt), EXT_ADDR).value
+            except Exception as e:
+                got = 'raise:' + type(e).__name__
+            if got != n:
+                ctx.violation('an amount handed to an output as text / Value object is not that many smallest units', {'op': 'amount-into-output', 'form': form_, 'amount': txt, 'observed': got, 'expected': n})
     # ---- the same over the whole supply range: exact decimal text of n satoshi in every unit -------------------------------
     from decimal import Decimal
     codes = {NETWORK_DEFINITIONS[n]['currency_code'].upper() for n in NETWORK_DEFINITIONS}
